@@ -240,12 +240,27 @@ def r3_array_values_by_position(ctx, rid):
                 continue
             lst_key = ast.unparse(lst)
             ok_size = False
+            # the list as it is NAMED at the loop (before normalisation), with the definitions that reach it there
+            raw_lst = loop.iter.args[0] if call_name(loop.iter) == "enumerate" else None
+            if raw_lst is None and call_name(loop.iter) == "range" and isinstance(loop.iter.args[0], ast.Call) and call_name(loop.iter.args[0]) == "len":
+                raw_lst = loop.iter.args[0].args[0] if loop.iter.args[0].args else None
+            rd_ = ctx.rd(f)
+
+            def same_list(e):
+                if ast.unparse(e) == lst_key:
+                    return True
+                if isinstance(e, ast.Name) and isinstance(raw_lst, ast.Name) and e.id == raw_lst.id:
+                    d1, d2 = rd_.defs_reaching(e), rd_.defs_reaching(raw_lst)
+                    return bool(d1) and {id(x) for x in d1} == {id(x) for x in d2}
+                return False
             for c in ast.walk(test):
                 if not isinstance(c, ast.Compare) or len(c.ops) != 1 or not isinstance(c.ops[0], ast.Eq if not neg else ast.NotEq):
                     continue
                 for side in [c.left] + list(c.comparators):
                     sv = normalise(ctx, f, side)
-                    if isinstance(sv, ast.Call) and call_name(sv) == "len" and sv.args and ast.unparse(sv.args[0]) == lst_key:
+                    if isinstance(sv, ast.Call) and call_name(sv) == "len" and sv.args and same_list(sv.args[0]):
+                        ok_size = True
+                    if isinstance(side, ast.Call) and call_name(side) == "len" and side.args and same_list(side.args[0]):
                         ok_size = True
             if ok_size:
                 ctx.ok(rid, f0, anchor, f"value array indexed by the position counter of `{ast.unparse(lst)[:40]}`, size compared with its length",
